@@ -204,6 +204,12 @@ def _is_initialiser(P, own, f, inits):
     init_names = [x.srcname for x in inits]
     for v in views:
         rc = v.ret_const()
+        if rc is None and v.ret_operand() is not None:
+            rt = P.term(f, v.ret_operand())
+            if rt[0] == "call" and rt[1] in init_names:
+                # returns the verdict of another initialiser directly: fails when that one fails, succeeds otherwise
+                fails_after_producer = True
+                rc = 0
         if rc is not None and rc < 0:
             for (a, p) in v.atoms:
                 t = a[2] if a[0] == "cmp" else (a[1] if a[0] == "truth" else None)
@@ -250,10 +256,17 @@ def clause2_ret(ctx, P, cg, own):
         nfail = 0
         for v in own.views(f):
             rc = v.ret_const()
-            if rc is None or rc >= 0:
+            may_fail_tail = False
+            if rc is None:
+                # the result of a fallible callee is returned directly: this path is a failure path whenever the callee fails
+                rt = P.term(f, v.ret_operand()) if v.ret_operand() is not None else None
+                if rt is not None and rt[0] == "call" and rt[1] in [x.srcname for x in inits]:
+                    may_fail_tail = True
+                    tail_pos = [k for k, i in v.insts() if i.id == rt[3]]
+            if not may_fail_tail and (rc is None or rc >= 0):
                 continue
             nfail += 1
-            linked = [i for _, i in v.calls(("list_add_tail", "list_add"))]
+            linked = [i for k, i in v.calls(("list_add_tail", "list_add")) if not may_fail_tail or k < tail_pos[0]]
             unlinked = [i for _, i in v.calls("list_del")]
             gst = [i for _, i in v.insts() if i.op == "store" and P.term(f, i.a[1])[0] == "global"]
             if (linked and len(unlinked) < len(linked)) or gst:
@@ -262,6 +275,48 @@ def clause2_ret(ctx, P, cg, own):
                "%s %s on a path that then fails: the caller frees the object, which stays reachable (global peer list / counter) - a "
                "dangling peer that other peers' sweeps and the shutdown sequence will touch" % (f.srcname, bad[1] if bad else ""),
                witness=bad[0].witness() if bad else None)
+    # no partial commit on a LIVE object: a function that fails (after a failed producer) must not have written fields of an
+    # element/peer/fetch that already existed before the call (objects under construction are exempt: the caller frees them)
+    from .c07 import _fresh_arg
+    LIVE = ("struct.element", "struct.peer", "struct.fetch")
+    npc = 0
+    for f in P.own_functions():
+        if f.ret not in ("i32",):
+            continue
+        views = own.views(f)
+        if not any(v.ret_const() is not None and v.ret_const() < 0 for v in views):
+            continue
+        cands = {}
+        for v in views:
+            rc = v.ret_const()
+            if rc is None or rc >= 0:
+                continue
+            failed_prod = False
+            fail_pos = None
+            for (a, p) in v.atoms:
+                t = a[2] if a[0] == "cmp" else None
+                if t is not None and t[0] == "call" and a[3] == ("null",) and Q._poleq(a, p) and \
+                        (t[1] in HEAP_PRODUCERS or t[1] in JSON_PRODUCERS or any(g.name in own.own_producers for g in P.by_src.get(t[1], []))):
+                    failed_prod = True
+                    fail_pos = [k for k, i in v.insts() if i.id == t[3]]
+            if not failed_prod or not fail_pos:
+                continue
+            for k, i in v.insts():
+                if i.op == "store" and k < fail_pos[0] + 2:
+                    dt = P.term(f, i.a[1])
+                    if dt[0] == "field" and dt[2] in LIVE and dt[1][0] == "param":
+                        # restored later on this path?
+                        restored = any(j.op == "store" and P.term(f, j.a[1]) == dt for kk, j in v.insts() if kk > fail_pos[0])
+                        if not restored:
+                            cands.setdefault((dt[1][1], dt[2], dt[3]), (v, i))
+        for (pidx, st, fld), (v, i) in cands.items():
+            callers = P.callers_of(f)
+            fresh = bool(callers) and all(_fresh_arg(P, own, c, pidx) for c in callers)
+            npc += 1
+            ctx.ob("C15.5 R-COMMIT", f, "no-partial-commit:%s.%s" % (st.split(".")[1], fld), fresh,
+                   "%s writes %s.%s of an object that already exists (at %s) before an allocation whose failure makes it return an "
+                   "error: the object is left half-updated (e.g. a table size that no longer matches its table)" % (f.srcname, st, fld, i.loc)
+                   if not fresh else "object under construction", witness=v.witness() if not fresh else None)
     n = 0
     for f in inits:
         sites = list(P.callers_of(f))
